@@ -145,12 +145,13 @@ Qed.
 Print Assumptions C15_refines_cloud.
 
 (* Disk: for every pickle codec that round-trips and never produces an empty
-   string, every positive chunk size, whenever the operations are handed
+   string, every positive chunk size and every behaviour of the asynchronous
+   writes short of an error (short writes included), whenever the operations are handed
    enough temp names *)
 Theorem C15_refines_disk :
   forall (enc_env : envelope -> bytes) dec_env (enc_meta : meta -> bytes) dec_meta chunk,
   (forall e, dec_env (enc_env e) = Some e) -> (forall m, dec_meta (enc_meta m) = Some m) ->
-  (forall e, enc_env e <> []) -> (forall m, enc_meta m <> []) -> chunk <> O ->
+  (forall e, enc_env e <> []) -> (forall m, enc_meta m <> []) -> wcfg_ok chunk ->
   forall ops s r,
   RDisk enc_env enc_meta s r -> wf_ops r ops = true -> Forall tmps_ok ops ->
   let out := disk_run enc_env dec_env enc_meta dec_meta chunk s ops in
@@ -167,7 +168,7 @@ Print Assumptions C15_refines_disk.
 
 (* the codec hypotheses are satisfiable: the executable number codec *)
 Theorem C15_refines_disk_numcodec : forall chunk ops,
-  chunk <> O -> wf_ops [] ops = true -> Forall tmps_ok ops ->
+  wcfg_ok chunk -> wf_ops [] ops = true -> Forall tmps_ok ops ->
   Forall2 res_match (snd (disk_run nc_enc_env nc_dec_env nc_enc_meta nc_dec_meta chunk [] ops)) (snd (ref_run [] ops)).
 Proof.
   intros chunk ops Hc Hwf Ht.
@@ -260,7 +261,7 @@ Print Assumptions C15_frame_cloud.
 Theorem C15_frame_disk :
   forall (enc_env : envelope -> bytes) dec_env (enc_meta : meta -> bytes) dec_meta chunk,
   (forall e, dec_env (enc_env e) = Some e) -> (forall m, dec_meta (enc_meta m) = Some m) ->
-  (forall e, enc_env e <> []) -> (forall m, enc_meta m <> []) -> chunk <> O ->
+  (forall e, enc_env e <> []) -> (forall m, enc_meta m <> []) -> wcfg_ok chunk ->
   forall s r o j,
   RDisk enc_env enc_meta s r -> wf_op r o = true -> tmps_ok o -> ref_target r o <> Some j ->
   disk_view dec_env dec_meta (fst (disk_step enc_env dec_env enc_meta dec_meta chunk s o)) j = disk_view dec_env dec_meta s j.
